@@ -23,6 +23,7 @@ import (
 	"sync"
 	"sync/atomic"
 	"testing"
+	"testing/synctest"
 	"time"
 
 	"github.com/tailscale/setec/audit"
@@ -255,8 +256,9 @@ func TestC08(t *testing.T) {
 	if r.Only < 0 {
 		concurrentReplies(t, r, dir)
 		sharedConditional(t, r, dir)
+		slowStore(t, r, dir)
 	}
-	r.Require("gate_violations", "accepted_requests", "accepted_200", "accepted_304", "accepted_403", "accepted_404", "accepted_other_error", "unidentified_callers", "client_mapping_checks", "audit_principals_checked", "grey_bodies", "concurrent_replies_checked", "overlapping_conditional_gets", "padded_bodies")
+	r.Require("gate_violations", "accepted_requests", "accepted_200", "accepted_304", "accepted_403", "accepted_404", "accepted_other_error", "unidentified_callers", "client_mapping_checks", "audit_principals_checked", "grey_bodies", "concurrent_replies_checked", "overlapping_conditional_gets", "padded_bodies", "requests_against_a_slow_store")
 	r.Rule("requests = product of 7 endpoints x 7 methods x 6 content types x 5 browser-header values x 17 WhoIs scripts x 13 body kinds, enumerated completely for /api/get and /api/put on every database state and sampled (seeded) for the other endpoints, all from ONE source address per state so that identity must be re-derived per request. Distinct = (endpoint, first violated gate or outcome class, status)")
 }
 
@@ -783,4 +785,70 @@ func sharedConditional(t *testing.T, r *evid.Run, dir string) {
 	}
 	r.Eval(1)
 	r.Distinct("overlapping conditional gets from differently entitled callers")
+}
+
+type sleepySink struct {
+	wait time.Duration
+	n    atomic.Int32
+	buf  bytes.Buffer
+	mu   sync.Mutex
+}
+
+func (s *sleepySink) Write(p []byte) (int, error) {
+	s.n.Add(1)
+	time.Sleep(s.wait)
+	s.mu.Lock()
+	defer s.mu.Unlock()
+	return s.buf.Write(p)
+}
+
+// slowStore (virtual time): the store behind the front door is slow - an audit write takes seconds to minutes
+// (a stalled disk, a network file system). However long an accepted request takes, its status tells what
+// happened: a reply that is not 2xx means the request did not change anything.
+func slowStore(t *testing.T, r *evid.Run, dir string) {
+	for ci, wait := range []time.Duration{2 * time.Second, 9 * time.Second, 12 * time.Second, 45 * time.Second, 3 * time.Minute} {
+		synctest.Test(t, func(t *testing.T) {
+			snk := &sleepySink{}
+			d, err := db.Open(filepath.Join(dir, fmt.Sprintf("slowstore%d.db", ci)), realdb.DummyKey("c08slow"), audit.New(snk))
+			if err != nil {
+				t.Fatal(err)
+			}
+			su := realdb.Super()
+			d.Put(su, "slow/existing", []byte("old"))
+			srv, err := httpdrv.New(d)
+			if err != nil {
+				t.Fatal(err)
+			}
+			const addr = "100.64.0.8:8"
+			srv.SetWho(addr, httpdrv.Who{Login: "slow@verif", Node: "slow", Rules: fullRules})
+			snk.wait = wait
+			for _, op := range []ops.Op{{Kind: ops.Put, Name: "slow/new", Value: []byte("fresh")}, {Kind: ops.Put, Name: "slow/existing", Value: []byte("newer")},
+				{Kind: ops.Act, Name: "slow/existing", Version: 2}, {Kind: ops.Delete, Name: "slow/new"}, {Kind: ops.Get, Name: "slow/existing"}} {
+				snk.wait = 0
+				before, _ := realdb.Dump(d)
+				snk.wait = wait
+				res, rep, _ := srv.Do(addr, op)
+				time.Sleep(2 * wait) // whatever is still going on behind the reply comes to an end
+				synctest.Wait()
+				snk.wait = 0
+				after, err := realdb.Dump(d)
+				snk.wait = wait
+				r.Eval(1)
+				r.Count("requests_against_a_slow_store", 1)
+				r.Distinct(fmt.Sprintf("slow store %v %s status=%d", wait, op.Kind, rep.Status))
+				if err != nil {
+					r.Violation("state-after-request", -1, err.Error(), nil)
+					return
+				}
+				if rep.Status != 200 && after.Canon() != before.Canon() {
+					r.Violation("non-2xx-reply-but-state-changed", -1, fmt.Sprintf("the audit write of an accepted %s took %v; the caller was answered %d (%s), yet the store applied the request", op, wait, rep.Status, strings.TrimSpace(string(rep.Body))), nil)
+					return
+				}
+				if rep.Status == 200 && op.Kind.Mutating() && after.Canon() == before.Canon() {
+					r.Violation("status-mapping", -1, fmt.Sprintf("%s answered 200 but nothing changed (%s)", op, res), nil)
+					return
+				}
+			}
+		})
+	}
 }
